@@ -3,6 +3,7 @@ from __future__ import annotations
 
 import copy
 import io
+import os
 import sys
 import threading
 import warnings
@@ -130,6 +131,11 @@ def run_item(item, held=None):
                 r = b.close()
                 return ["badbody", X.from_etree(r) if r is not None else None], bad
         except Exception as e:
+            if os.environ.get("VERIF_TRACE_DIR"):
+                import traceback
+
+                with open(os.path.join(os.environ["VERIF_TRACE_DIR"], "c17-%d-%d.txt" % (os.getpid(), threading.get_ident())), "a") as f:
+                    f.write(traceback.format_exc() + "\n")
             return ["raised", type(e).__name__], bad
     raise H.HarnessError(item)
 
